@@ -95,7 +95,7 @@ fn gen(seed: u64, tier: Tier) -> Case {
             }
         };
         let addr = if r.chance(1, 60) { AddrSpec::Ent(Cred::Script(0)) } else { sess::gen_key_addr(&mut r, nkeys, byron_pm) };
-        w.utxos.push(Utxo { tx: 1 + i as u32 / 3, ix: (i % 3) as u32 + if r.chance(1, 10) { 255 } else { 0 }, addr, coin, empty_ma: assets.is_empty() && r.chance(1, 10), assets, datum: None, script_ref: if r.chance(1, 30) { Some(0) } else { None } });
+        w.utxos.push(Utxo { tx: 1 + i as u32 / 3, ix: (i % 3) as u32 + if r.chance(1, 10) { 255 } else { 0 }, addr, coin, empty_ma: if assets.is_empty() { r.chance(1, 10) } else { r.chance(1, 30) }, assets, datum: None, script_ref: if r.chance(1, 30) { Some(0) } else { None } });
     }
     let mut seen = BTreeSet::new();
     for u in w.utxos.iter_mut() {
